@@ -121,6 +121,8 @@ class SArr(_np.ndarray):
             return r.view(SArr)
         if isinstance(r, tuple):
             return tuple(x.view(SArr) if isinstance(x, _np.ndarray) else x for x in r)
+        if method == "__call__" and is_sym(r) and all(_np.ndim(i) == 0 for i in ins):
+            return _scalar_arr(r)
         return r
 
     def __getitem__(self, key):
@@ -479,7 +481,7 @@ class _NP:
         if isinstance(x, (list, tuple, _np.ndarray)):
             a = _np.asarray(_to_arr(x))
             r = _np.frompyfunc(f, 1, 1)(a)
-            return r.view(SArr) if isinstance(r, _np.ndarray) else r
+            return r.view(SArr) if isinstance(r, _np.ndarray) else _scalar_arr(r)
         return f(x)
 
     def abs(self, x):
@@ -837,6 +839,13 @@ class _NP:
 
     def stack(self, seq, axis=0):
         return _np.stack([_np.asarray(_to_arr(p)) for p in seq], axis=axis).view(SArr)
+
+
+def _scalar_arr(v):
+    """0-d SArr holding v (numpy returns 0-d arrays / numpy scalars that still have array methods)."""
+    a = _np.empty((), dtype=object)
+    a[()] = v
+    return a.view(SArr)
 
 
 def _lt(a, b):
